@@ -28,6 +28,27 @@ func selfTest() int {
 		fmt.Println("selftest: model parsing failed", r, m)
 		return 1
 	}
+	// bit-precise mode: (k/49)*49 < k has the model k = 1 among others; (k/4)*4 < k has none
+	if _, err := exec.LookPath("cvc5"); err != nil {
+		fmt.Println("selftest: cvc5 missing (bit-precise queries fall back to z3)")
+	}
+	fb := NewTB()
+	fb.fp = true
+	s.Reset(true, true)
+	k := fb.Var("k", SInt)
+	rng := fb.And(fb.ILe(fb.Int(0), k), fb.ILe(k, fb.Int(49)))
+	back := func(n int64) *Term {
+		fk, fn := fb.ToReal(k), fb.ToReal(fb.Int(n))
+		return fb.RLt(fb.RMul(fb.RDiv(fk, fn), fn), fk)
+	}
+	if r, _ := s.Check([]*Term{rng, back(49)}, []*Term{k}, false); r != "sat" {
+		fmt.Println("selftest: bit-precise query (k/49)*49 < k gave", r)
+		return 1
+	}
+	if r, _ := s.Check([]*Term{rng, back(4)}, nil, false); r != "unsat" {
+		fmt.Println("selftest: bit-precise query (k/4)*4 < k gave", r)
+		return 1
+	}
 	fmt.Println("selftest ok")
 	return 0
 }
